@@ -212,6 +212,9 @@ func c20Sequence(ctx *Ctx, i int, rng *rand.Rand) {
 			if n >= 2 {
 				mon = append(mon, fmt.Sprintf("c20-two-loops: %.2f keep-alives per interval: %d keep-alive loops are running", rate, n))
 			}
+			if n == 0 && started {
+				mon = append(mon, fmt.Sprintf("c20-no-loop-after-start: the agent was started successfully and has not been stopped, yet no keep-alives are being sent (%.2f per interval)", rate))
+			}
 		}
 	}
 	// always finish with a measurement, then stop everything that runs
@@ -219,6 +222,9 @@ func c20Sequence(ctx *Ctx, i int, rng *rand.Rand) {
 		emit("measure", "LTick", fmt.Sprintf("(RTick %s)", cNat(n)), rate)
 		if n >= 2 {
 			mon = append(mon, fmt.Sprintf("c20-two-loops: %.2f keep-alives per interval: %d keep-alive loops are running", rate, n))
+		}
+		if n == 0 && started {
+			mon = append(mon, fmt.Sprintf("c20-no-loop-after-start: the agent was started successfully and has not been stopped, yet no keep-alives are being sent (%.2f per interval)", rate))
 		}
 		for j := 0; j < n; j++ {
 			done := make(chan struct{})
